@@ -146,3 +146,103 @@ def run_cases(cases, rdir, shard_size=30):
         if r['model_outs'] != r['outs']:
             corr_breaks.append({'kind': 'model', 'idx': idx, 'case': c, 'impl': r['outs'], 'model': r['model_outs']})
     return results, violations, corr_breaks, coq_failures
+
+
+# ----------------------------------------------------------------------------------------------
+# capstone: the source configuration, compiled by the pipeline model inside Coq, passes the
+# boolean hypotheses of C01_compiled_scanner_is_specification and gives the automata the
+# implementation compiled
+
+class _ClassIds:
+    def __init__(self, classes):
+        self.ids = {s: i for i, s in enumerate(classes)}
+
+    def get(self, s):
+        return self.ids[s]
+
+
+def src_term(modes_cfg, asts, ids):
+    ms = []
+    for m, ma in zip(modes_cfg, asts):
+        ps = []
+        for p, (pa, la) in zip(m['patterns'], ma):
+            la_t = 'None'
+            if p.get('la'):
+                la_t = '(Some (%s, %s))' % (cbool(p['la']['pos']), ast_term(la, ids))
+            ps.append('{| s_tok := %d; s_ast := %s; s_la := %s |}' % (p['t'], ast_term(pa, ids), la_t))
+        tr = clist(['(%d, %d%%nat)' % (t[0], t[1]) for t in sorted(map(tuple, m.get('transitions', [])))])
+        ms.append('{| s_pats := %s; s_trans := %s |}' % (clist(ps), tr))
+    return clist(ms)
+
+
+def _enc_rows(d):
+    out = []
+    for es, f in zip(d['states'], d['end']):
+        row = [1 if f[0] else 0, f[1]]
+        for cc, t in sorted(set((e[0], e[1]) for e in es)):
+            row += [cc, t]
+        out.append(row)
+    return out
+
+
+def dump_enc(dump_modes):
+    out = []
+    for md in dump_modes:
+        d = md['dfa']
+        las = sorted([(l[0], (bool(l[1]), _enc_rows(l[2]))) for l in d.get('las', [])])
+        out.append((_enc_rows(d), list(d['tids']), las, [tuple(t) for t in md['transitions']]))
+    return out
+
+
+def in_theorem_domain(modes):
+    """distinct token types inside each mode (D8), token types < 2^32 (D9)"""
+    return not any(len(set(q['t'] for q in m['patterns'])) != len(m['patterns']) or any(q['t'] >= 2 ** 32 for q in m['patterns'])
+                   for m in modes)
+
+
+def capstone_cases(cases, results, rdir, limit, maxstates=80):
+    """Returns (n_checked, n_agree, breaks)."""
+    seen, entries = set(), []
+    for c, r in zip(cases, results):
+        if r.get('build') != 'ok' or not in_theorem_domain(c['modes']) or c.get('simple'):
+            continue
+        h = canon_hash(c['modes'])
+        if h in seen:
+            continue
+        seen.add(h)
+        if any(len(m['dfa']['states']) > maxstates for m in r['dump']['modes']):
+            continue
+        try:
+            term = '(capstone_enc %s)' % src_term(c['modes'], r['asts'], _ClassIds(r['dump']['classes']))
+        except KeyError:
+            continue
+        entries.append((term, dump_enc(r['dump']['modes']), c['modes']))
+        if len(entries) >= limit:
+            break
+    shards = [entries[k:k + 25] for k in range(0, len(entries), 25)]
+    paths = []
+    for n, sh_ in enumerate(shards):
+        p = os.path.join(rdir, 'capstone_%03d.v' % n)
+        with open(p, 'w') as f:
+            f.write('From Scnr Require Import Base Regex Automaton FindFrom Iter Spec Nfa Minimizer Compile EndToEnd.\nOpen Scope N_scope.\n'
+                    'Set Printing Depth 1000000.\nSet Printing Width 1000000.\n')
+            f.write('Eval vm_compute in %s.\n' % clist(['\n ' + e[0] for e in sh_]))
+        paths.append(p)
+    outs = coq_eval_files(paths, timeout=1500)
+    agree, breaks = 0, []
+    for sh_, (rc, o), p in zip(shards, outs, paths):
+        if rc != 0:
+            breaks.append({'what': 'coqc failed on %s' % p, 'detail': o[-2000:]})
+            continue
+        vals = parse_coq_value(o)
+        for (term, impl, modes), v in zip(sh_, vals):
+            got = [(m[0], m[1], sorted((l[0], (l[1][0], l[1][1])) for l in m[2]), [tuple(t) for t in m[3]]) for m in v]
+            if got == impl:
+                agree += 1
+            elif not v:
+                breaks.append({'what': 'capstone: the boolean hypotheses of C01_compiled_scanner_is_specification (capstone_check) fail on an '
+                                       'explored configuration inside the stated domain', 'detail': {'modes': modes}})
+            else:
+                breaks.append({'what': 'capstone correspondence: the scanner compiled by the pipeline model from the parsed configuration differs '
+                                       'from the automata the implementation compiled', 'detail': {'modes': modes, 'impl': impl, 'model': got}})
+    return len(entries), agree, breaks
